@@ -61,6 +61,10 @@ def strat_scp(tier):
         header_fields(), data=payload(), cmd_rc=edge_int(16),
         seq=edge_int(16), n_present=st.integers(0, 3),
         args=st.tuples(edge_int(32), edge_int(32), edge_int(32)),
+        # each argument may be None on its own: the present ones are packed
+        # in order (None = the first n_present are present)
+        present=st.one_of(st.none(), st.none(), st.none(),
+                          st.lists(st.booleans(), min_size=3, max_size=3)),
         n_args=st.one_of(st.none(), st.integers(0, 4))))
 
 
@@ -77,8 +81,10 @@ def _model(case, scp):
     m["data"] = unb64(case["data"])
     if scp:
         m["cmd_rc"], m["seq"] = case["cmd_rc"], case["seq"]
+        pres = case.get("present") or [i < case["n_present"]
+                                       for i in range(3)]
         for i, a in enumerate(("arg1", "arg2", "arg3")):
-            m[a] = case["args"][i] if i < case["n_present"] else None
+            m[a] = case["args"][i] if pres[i] else None
     return m
 
 
@@ -118,6 +124,13 @@ def check_scp(case):
     require(bs == want, "SCP encoding differs from the documented layout",
             {"got": bs.hex(), "expected": want.hex()})
     n_present = case["n_present"]
+    pres = case.get("present")
+    if pres and pres != [i < sum(pres) for i in range(3)]:
+        # an argument is missing before one that is present: only the
+        # encoding is defined (decoding cannot tell which one was left out)
+        return {"nontrivial": True, "classes": ["argument-hole"]}
+    if pres:
+        n_present = sum(pres)
     # same argument count: equal in every field
     with sut("SCPPacket.from_bytestring"):
         q = packets.SCPPacket.from_bytestring(bs, n_args=n_present)
